@@ -32,7 +32,7 @@ ASSUMPTIONS = [
     "the 'statically for every module' clause cannot be decided by running code: it is covered by the auxiliary AST walk reported under coverage.static_lint",
 ]
 PROBES = ["io_fault_fired", "crash_fired", "torn_tmp_left_behind", "second_run_after_crash", "input_fault_error_path", "stale_report_unlink_faulted",
-          "enospc_mid_save", "vanish_fired", "log_dir_fault_fired", "walk_packages_run", "syscall_monitored_run", "io_fault_sequence_fired", "double_crash_fired", "crash_point_sweep"]
+          "enospc_mid_save", "vanish_fired", "log_dir_fault_fired", "walk_packages_run", "syscall_monitored_run", "io_fault_sequence_fired", "double_crash_fired", "crash_point_sweep", "interrupt_fired"]
 
 STRACE_SHARE = 0.25
 WEIGHTS = {"huge": 0.012}  # size thresholds (pools that start, buffers that spill) are where a program begins to fork or to write elsewhere
@@ -76,7 +76,7 @@ def make_case(seed, facts, index=0):
     base = c16.make_case(rng.randint(0, 2**62), facts, index, weights=WEIGHTS)
     base["property"] = PROP
     base["seed"] = seed
-    mode = rng.choice(["clean", "clean", "input_fault", "input_fault", "io_fault", "io_fault", "io_fault", "crash_history", "crash_history"])
+    mode = rng.choice(["clean", "clean", "input_fault", "input_fault", "io_fault", "io_fault", "io_fault", "crash_history", "crash_history", "interrupt_history"])
     base["mode"] = mode
     if mode == "input_fault":
         from .c12 import _choose_faults  # pylint: disable=import-outside-toplevel
@@ -95,8 +95,8 @@ def make_case(seed, facts, index=0):
             base["prestate"] = ["stale_report", "readonly_stale", "stale_report"]
         if f["cls"] == "template":
             pass
-    elif mode == "crash_history":
-        base["crash_at"] = rng.randint(1, 90)
+    elif mode in ("crash_history", "interrupt_history"):
+        base["crash_at"] = rng.randint(1, 90)  # for interrupt_history: the I/O step at which Ctrl-C (KeyboardInterrupt) arrives
     # fault *sequences*: a second and third I/O fault in the same run; a second crash during the restart, then a third run
     if mode == "io_fault" and rng.random() < 0.3:
         more = []
@@ -275,7 +275,9 @@ def exec_case(case, facts, src=None):
     try:
         io_faults = ([case["io_fault"]] + list(case.get("io_faults_more") or [])) if mode == "io_fault" else None
         crash_at = case.get("crash_at") if mode == "crash_history" else None
-        res = runner.run(w, files, opts, host=case["host"], faults=io_faults, crash_at=crash_at, record_imports=True, src=src, strace=bool(case.get("strace")))
+        interrupt_at = case.get("crash_at") if mode == "interrupt_history" else None
+        res = runner.run(w, files, opts, host=case["host"], faults=io_faults, crash_at=crash_at, interrupt_at=interrupt_at, record_imports=True, src=src,
+                         strace=bool(case.get("strace")))
         stats["runs"] += 1
         violations += monitors(res)
         violations += _sys_monitor(res, stats)
@@ -308,8 +310,13 @@ def exec_case(case, facts, src=None):
                 stats["probe:input_fault_error_path"] = 1
         if any(p.endswith(".tmp") for p in core.snapshot_diff(res)):
             stats["probe:torn_tmp_left_behind"] = 1
-        if mode == "crash_history":
-            stats["cfg:crash"] = 1
+        if mode == "interrupt_history":
+            stats["cfg:interrupt"] = 1
+            if child.get("interrupted"):
+                stats["fault:interrupt"] = 1
+                stats["probe:interrupt_fired"] = 1
+        if mode in ("crash_history", "interrupt_history"):
+            stats["cfg:crash"] = stats.get("cfg:crash", 0) + (1 if mode == "crash_history" else 0)
             if child.get("crashed"):
                 stats["fault:crash"] = 1
                 stats["probe:crash_fired"] = 1
@@ -347,7 +354,7 @@ def reduce_candidates(case):
         yield dict(case, io_fault=case["io_faults_more"][0], io_faults_more=case["io_faults_more"][1:])
     if case.get("crash_at2"):
         yield dict(case, crash_at2=None)
-    if case.get("mode") in ("io_fault", "crash_history", "input_fault"):
+    if case.get("mode") in ("io_fault", "crash_history", "input_fault", "interrupt_history"):
         yield dict(case, mode="clean")
     for c in c16.reduce_candidates(case):
         yield c
